@@ -161,10 +161,13 @@ func (s *Store) AddSourceSnapshot(ckpt *jobpb.SourceRunnerCheckpointCompleteRequ
 	return nil
 }
 
+// RegisterSourceSplitter sets the source splitter whose state is included in
+// checkpoints. Each time the job starts an assembly it registers the new
+// splitter, which replaces the one of the previous assembly.
 func (s *Store) RegisterSourceSplitter(splitter connectors.SourceSplitter) {
 	s.stateMu.Lock()
 	defer s.stateMu.Unlock()
-	s.sourceSplitters = append(s.sourceSplitters, splitter)
+	s.sourceSplitters = []connectors.SourceSplitter{splitter}
 }
 
 func (s *Store) finishSnapshot(snap *jobSnapshot) {
